@@ -225,6 +225,7 @@ def check_history(case, ctx: Ctx):
             grows = h.is_adaptive() and any(not (float(b.bins[0][0]) <= v < float(b.bins[-1][1])) for v, b in zip(pt, h.binnings) if b.bin_count)
             f0, e0 = float(np.asarray(h.frequencies, dtype=float).sum()), float(np.asarray(h.errors2, dtype=float).sum())
             m0 = float(h.missed) if hasattr(h, "missed") else float("nan")
+            dt0 = h.dtype  # (sums taken in a narrow float type carry that type's rounding: only wide starts are compared)
             if name == "fill":
                 ctx.call(what, h.fill, pt[0] if d == 1 else pt)
                 entered = 1
@@ -234,7 +235,7 @@ def check_history(case, ctx: Ctx):
             # the filled object books every unit-weight entry once: in the contents and in the squared errors alike
             f1, e1 = float(np.asarray(h.frequencies, dtype=float).sum()), float(np.asarray(h.errors2, dtype=float).sum())
             m1 = float(h.missed) if hasattr(h, "missed") else float("nan")
-            if (h.dtype.kind in "iu" or h.dtype == np.float64) and all(math.isfinite(x) for x in (f0, e0, f1, e1)) and max(abs(f0), abs(e0)) < 2 ** 40:
+            if (dt0.kind in "iu" or dt0 == np.float64) and (h.dtype.kind in "iu" or h.dtype == np.float64) and all(math.isfinite(x) for x in (f0, e0, f1, e1)) and max(abs(f0), abs(e0)) < 2 ** 40:
                 if True:
                     require(abs((f1 - f0) - (e1 - e0)) <= 1e-6 * max(1.0, abs(f0), abs(e0)), "fill_booked_unevenly",
                             lambda: f"{what}: contents grew by {f1 - f0}, squared errors by {e1 - e0}")
